@@ -1,9 +1,41 @@
-"""C08 — malformed or foreign packets are discarded without panic or effect."""
+"""C08 — malformed or foreign packets are discarded without panic or effect.
+
+Besides the endpoint correspondence and the injection families of the L4 simulation, the decoder itself is fed
+hostile payloads (the F1 corpus, token sequences whose claimed run lengths sit at the arithmetic and size
+limits, mutated real payloads): no panic, no abort, and no allocation beyond the documented bound - the packet
+being dropped afterwards is not enough, the damage of an unbounded allocation is done before."""
 from . import families as F
 from .simprops import generic_run, sizes, sim_replay
 from .p_endpoint import run_endpoint_correspondence
+from . import p_C14
 LABELS = {"C08", "C01", "C03", "PANIC"}
+
+def run_hostile_payloads(ctx):
+    rng = ctx.rng
+    ops = ["dec %s %s" % (r, d) for r, d in p_C14.CORPUS_DEC]
+    n = 20000 if ctx.thorough else 3000
+    for _ in range(n):
+        ops.append("dec %s %s" % (p_C14.HEX(p_C14.gen_bytes(rng, rng.choice([0, 4]), 2)), p_C14.HEX(p_C14.gen_token_payload(rng))))
+    for prof in (("debug", "release") if ctx.thorough else ("debug",)):
+        if prof not in ctx.bins:
+            ctx.build_harness((prof,))
+        impl = ctx.run_impl("codec", ops, prof)
+        p_C14.check_dec_results(ctx, ops, impl, prof)
+        ctx.cov["traces_validated_against_impl"] += len(ops)
+    for op in ops[::7]:
+        ctx.count(nontrivial_key=("hostile", op))
+
+def extra(ctx):
+    run_endpoint_correspondence(ctx)
+    run_hostile_payloads(ctx)
+
 def run(ctx):
-    generic_run(ctx, LABELS, extra=run_endpoint_correspondence, plan=[("inject_silent", lambda: F.fam_inject_silent(ctx.rng, sizes(ctx, 60, 600))), ("inject", lambda: F.fam_inject(ctx.rng, sizes(ctx, 150, 1500)))])
+    generic_run(ctx, LABELS, extra=extra, plan=[("inject_silent", lambda: F.fam_inject_silent(ctx.rng, sizes(ctx, 60, 600))), ("inject", lambda: F.fam_inject(ctx.rng, sizes(ctx, 150, 1500)))])
+
 def replay(ctx, path):
+    import json
+    body = json.load(open(path))
+    codec = [h for h in body.get("failing_inputs", []) if h.get("replay", {}).get("level") == "codec"]
+    if codec:
+        return p_C14.replay(ctx, path)
     return sim_replay(ctx, path, LABELS)
